@@ -2122,6 +2122,11 @@ func buildRequestBodyType(body, att *expr.AttributeExpr, e *expr.HTTPEndpointExp
 				if _, ok := body.Type.(expr.UserType); !ok {
 					name = fmt.Sprintf("New%sRequestBody", codegen.Goify(e.Name(), true))
 				}
+			} else if arr, ok := body.Type.(*expr.Array); ok && (expr.IsArray(arr.ElemType.Type) || expr.IsMap(arr.ElemType.Type)) {
+				// a collection of collections: the Go type name is derived from
+				// the innermost element type, another endpoint may send a
+				// plain collection of the same type.
+				name = fmt.Sprintf("New%sRequestBody", codegen.Goify(e.Name(), true))
 			}
 			desc = fmt.Sprintf("%s builds the HTTP request body from the payload of the %q endpoint of the %q service.",
 				name, e.Name(), svc.Name)
